@@ -185,6 +185,30 @@ class Cases:
 
 
 # ----------------------------------------------------------------------------- case builders
+def guarded(fn):
+    """a valid input on which the implementation raises or returns non-finite numbers is a violation with that
+    input as the replay (the check goes on with the next case)"""
+    def wrapper(ctx, *args, **kw):
+        try:
+            return fn(ctx, *args, **kw)
+        except Exception as e:       # noqa
+            import traceback
+            site = {'case_dens': 'DensityFilter', 'case_radius': 'FilterConv(radius)'}.get(fn.__name__, 'FilterConv')
+            ctx.violation('impl-violates', site, 'valid input handled: no exception, finite output', fn.__name__,
+                          dict(args=repr([a for a in args if not hasattr(a, '__dict__') or isinstance(a, np.ndarray)])[:3000],
+                               error=repr(e)[:500], where=traceback.format_exc()[-1200:]))
+            return None
+    wrapper.__name__ = fn.__name__
+    return wrapper
+
+
+def finite(*arrays):
+    for a in arrays:
+        if not np.all(np.isfinite(np.asarray(a, dtype=float))):
+            raise FloatingPointError('non-finite output')
+
+
+@guarded
 def case_pad(ctx, pym, cs, grid, pads, modes, tag='pad'):
     """el3d_orig, el3d_pad (exact) and get_padded_vector on x_e = e + 1 (exact)"""
     nx, ny, nz = grid
@@ -238,6 +262,7 @@ def run_module(m, sx, x, seed):
     return y, dx
 
 
+@guarded
 def case_resp(ctx, pym, cs, grid, w, modes, x, seed, uovs=(), tag='resp'):
     """FilterConv with explicit weights: response and sensitivity (toleranced), user overrides"""
     nx, ny, nz = grid
@@ -248,6 +273,7 @@ def case_resp(ctx, pym, cs, grid, w, modes, x, seed, uovs=(), tag='resp'):
         m.override_values(index, v)
         upts.append((sel_points(n1, index), v))
     y, dx = run_module(m, sx, x, seed)
+    finite(y, dx)
     w3 = w if w.ndim == 3 else w[:, :, None]
     g = f'(G {nx} {ny} {nz})'
     up = '[' + '; '.join(f'({pts_lit(p)}, {qlit(Fraction(v))}%Q)' for p, v in upts) + ']'
@@ -286,12 +312,14 @@ def tab_lit(tab):
     return '[' + '; '.join(f'({k}, {qlit(v)}%Q)' for k, v in tab) + ']'
 
 
+@guarded
 def case_radius(ctx, pym, cs, grid, r, relative, sizes4, modes, x, seed):
     """FilterConv(radius=...): kernel (shape exact, values toleranced), response, sensitivity"""
     nx, ny, nz = grid
     sizes = [s / 4.0 for s in sizes4]
     dom, sx, m = build_fconv(pym, grid, modes, radius=r, relative_units=relative, sizes=sizes, x=x)
     y, dx = run_module(m, sx, x, seed)
+    finite(y, dx)
     w = np.array(m.weights)
     rq = Fraction(float(r))
     scale = (1, 1, 1) if relative else tuple(sizes4)
@@ -317,6 +345,7 @@ def case_radius(ctx, pym, cs, grid, r, relative, sizes4, modes, x, seed):
     return m, y, dx
 
 
+@guarded
 def case_dens(ctx, pym, cs, grid, r, x, seed, nonpad=None):
     """DensityFilter: H structure exactly (rows of sorted columns), values/Hs/response/sensitivity toleranced"""
     nx, ny, nz = grid
@@ -325,6 +354,7 @@ def case_dens(ctx, pym, cs, grid, r, x, seed, nonpad=None):
     kw = {} if nonpad is None else dict(nonpadding=np.array(nonpad, dtype=int))
     m = pym.DensityFilter(sx, domain=dom, radius=r, **kw)
     y, dx = run_module(m, sx, x, seed)
+    finite(y, dx)
     H = m.H.tocoo()
     rows = [[] for _ in range(dom.nel)]
     for i, j, v in zip(H.row.tolist(), H.col.tolist(), H.data.tolist()):
@@ -497,15 +527,24 @@ def run_corpus(ctx, pym, cs):
                 w = np.array(e['weights'], dtype=float)
                 x, seed = np.array(e['x'], dtype=float), np.array(e['seed'], dtype=float)
                 uovs = [(tuple(np.array(a) for a in zip(*pts)), v) for pts, v in e.get('overrides', [])]
-                m, y, dx, upts = case_resp(ctx, pym, cs, grid, w, modes, x, seed, uovs, tag='corpus-resp')
+                res = case_resp(ctx, pym, cs, grid, w, modes, x, seed, uovs, tag='corpus-resp')
+                if res is None:
+                    continue
+                m, y, dx, upts = res
                 oracle_fconv(ctx, grid, w, modes, x, y, upts, [s // 2 for s in (w.shape if w.ndim == 3 else w.shape + (1,))])
             elif k == 'radius':
                 x, seed = np.array(e['x'], dtype=float), np.array(e['seed'], dtype=float)
-                m, y, dx = case_radius(ctx, pym, cs, grid, e['radius'], e['relative_units'], e['sizes4'], modes, x, seed)
+                res = case_radius(ctx, pym, cs, grid, e['radius'], e['relative_units'], e['sizes4'], modes, x, seed)
+                if res is None:
+                    continue
+                m, y, dx = res
                 oracle_fconv(ctx, grid, np.array(m.weights), modes, x, y, [], list(m.pad_sizes), call='FilterConv(radius)')
             elif k == 'dens':
                 x, seed = np.array(e['x'], dtype=float), np.array(e['seed'], dtype=float)
-                m, y, dx = case_dens(ctx, pym, cs, grid, e['radius'], x, seed, e.get('nonpadding'))
+                res = case_dens(ctx, pym, cs, grid, e['radius'], x, seed, e.get('nonpadding'))
+                if res is None:
+                    continue
+                m, y, dx = res
                 oracle_dens(ctx, grid, e['radius'], x, y, e.get('nonpadding'))
     ctx.count('corpus', n)
 
@@ -575,9 +614,9 @@ def run(ctx):
             pads[rng.randrange(3)] = 0
         kinds = [rng.choice(MODES) for _ in range(6)]
         return (nx, ny, nz), pads, make_modes(kinds)
-    for _ in range(500 if quick else 3000):
+    for _ in range(350 if quick else 3000):
         case_pad(ctx, pym, cs, *rand_pad_case(False))
-    for _ in range(250 if quick else 2000):
+    for _ in range(150 if quick else 2000):
         case_pad(ctx, pym, cs, *rand_pad_case(True))
     if not quick:
         for kinds4 in itertools.product(MODES, repeat=4):
@@ -590,7 +629,7 @@ def run(ctx):
         ctx.extra['exhaustive_2d'] = 'all 256 mode 4-tuples x grids <=3x3 x pads 0..n+2'
 
     # ---- responses / sensitivities with explicit kernels
-    for t in range(160 if quick else 1500):
+    for t in range(110 if quick else 1500):
         three_d = t % 3 == 2
         nx, ny = rng.randint(1, 5), rng.randint(1, 5)
         nz = rng.randint(1, 3) if three_d else 0
@@ -599,7 +638,7 @@ def run(ctx):
         pads = [rng.randint(0, (n + 2) if big else min(n, 2)) for n in n1]
         if not three_d:
             pads[2] = 0
-        while (2 * pads[0] + 1) * (2 * pads[1] + 1) * (2 * pads[2] + 1) * nx * ny * n1[2] > (2500 if quick else 5000):
+        while (2 * pads[0] + 1) * (2 * pads[1] + 1) * (2 * pads[2] + 1) * nx * ny * n1[2] > (2000 if quick else 5000):
             pads[max(range(3), key=lambda d: pads[d])] -= 1
         shape = [2 * p + 1 for p in pads]
         flavour = rng.choice(['int', 'normalised', 'mirror', 'mirror'])
@@ -615,14 +654,17 @@ def run(ctx):
         uovs = gen_overrides(rng, n1) if rng.random() < 0.25 else []
         wpass = w[:, :, 0] if (not three_d and rng.random() < 0.5) else w
         ctx.count('kernel:' + flavour)
-        m, y, dx, upts = case_resp(ctx, pym, cs, (nx, ny, nz), wpass, modes, x, seed, uovs)
+        res = case_resp(ctx, pym, cs, (nx, ny, nz), wpass, modes, x, seed, uovs)
+        if res is None:
+            continue
+        m, y, dx, upts = res
         oracle_fconv(ctx, (nx, ny, nz), w, modes, x, y, upts, pads)
         if flavour != 'int' and not uovs and not any(isinstance(mm, Number) for mm in modes):
             oracle_const(ctx, m, m.sig_in[0], nx * ny * n1[2], modes, 'FilterConv._response')
 
     # ---- radius kernels
     radii = [0.3, 0.75, 1.0, 1.25, 1.5, 2.0, 2.3, 2.5, 3.0, 3.7, 4.5, 5.2, 6.5]
-    for t in range(70 if quick else 700):
+    for t in range(45 if quick else 700):
         three_d = t % 3 == 2
         nx, ny = rng.randint(1, 5), rng.randint(1, 5)
         nz = rng.randint(1, 3) if three_d else 0
@@ -635,7 +677,10 @@ def run(ctx):
         kinds = [rng.choice(MODES) for _ in range(6)] if rng.random() < 0.6 else ['symmetric'] * 6
         modes = make_modes(kinds, rng)
         x, seed = rand_field(rng, nx * ny * n1[2]), rand_field(rng, nx * ny * n1[2])
-        m, y, dx = case_radius(ctx, pym, cs, (nx, ny, nz), r, relative, sizes4, modes, x, seed)
+        res = case_radius(ctx, pym, cs, (nx, ny, nz), r, relative, sizes4, modes, x, seed)
+        if res is None:
+            continue
+        m, y, dx = res
         w = np.array(m.weights)
         ctx.search_evaluations += 1
         if np.min(w) < 0 or abs(np.sum(w) - 1) > 1e-12 or any(2 * p + 1 != s for p, s in zip(m.pad_sizes, w.shape)) \
@@ -648,7 +693,7 @@ def run(ctx):
             oracle_const(ctx, m, m.sig_in[0], nx * ny * n1[2], modes, 'FilterConv(radius)')
 
     # ---- DensityFilter
-    for t in range(70 if quick else 600):
+    for t in range(45 if quick else 600):
         three_d = t % 3 == 2
         nx, ny = rng.randint(1, 5), rng.randint(1, 5)
         nz = rng.randint(1, 3) if three_d else 0
@@ -659,7 +704,10 @@ def run(ctx):
             r = rng.choice([0.3, 1.25, 1.5, 2, 2.3, 2.5])
         x, seed = rand_field(rng, n), rand_field(rng, n)
         nonpad = sorted(rng.sample(range(n), rng.randint(0, n))) if rng.random() < 0.3 else None
-        m, y, dx = case_dens(ctx, pym, cs, (nx, ny, nz), r, x, seed, nonpad)
+        res = case_dens(ctx, pym, cs, (nx, ny, nz), r, x, seed, nonpad)
+        if res is None:
+            continue
+        m, y, dx = res
         oracle_dens(ctx, (nx, ny, nz), float(r), x, y, nonpad)
         if nonpad is None:
             oracle_const(ctx, m, m.sig_in[0], n, [], 'DensityFilter._response')
@@ -669,6 +717,8 @@ def run(ctx):
                         ('even', (4, 4, 4))):
         case_malformed(ctx, pym, cs, kind, shape)
 
+    import time
+    ctx.extra['seconds_generation_and_oracle'] = round(time.time() - ctx.t0, 1)
     # balance the shards by (estimated) cost
     chunk = 40 if quick else 100
     nshard = max(1, -(-len(cs.checks) // chunk))
@@ -690,6 +740,7 @@ def run(ctx):
                       dict(label=repr(lab), replay=cs.replay[idx], coq_check=cs.checks[idx][:3000]),
                       note='Coq model and implementation differ')
     ctx.extra['failing_cases'] = len(failing)
+    ctx.extra['seconds_total'] = round(time.time() - ctx.t0, 1)
 
 
 if __name__ == '__main__':
